@@ -119,6 +119,11 @@ def run_job(job, wd):
     if kind == "count_job":
         write_raw(path, job["text"], True)
 
+        # the per-process job is a private function: when a tree does not have it under this name, its single-slice
+        # correspondence is skipped (the public cues_outcomes is compared on the same files for every n_jobs)
+        if not hasattr(count, "_job_cues_outcomes"):
+            return {"status": "private_name_absent"}
+
         def go():
             n, cues, outs = count._job_cues_outcomes(path, job["start"], job["step"])
             return {"n_events": int(n), "cues": counter_items(cues), "outcomes": counter_items(outs)}
